@@ -822,6 +822,45 @@ func (k *checker) shapeOne(cs shapeCase, fn *ssa.Function) {
 	}
 	ms, is2 := k.analyzeMap(res, dstID, sink)
 	issues = append(issues, is2...)
+	// element loops that run in spawned goroutines (the engine does not follow `go`): decide the partition
+	spawns := k.spawnScan(fn)
+	var spawnFacts []string
+	for _, sv := range spawns {
+		switch {
+		case sv.violation != "":
+			issues = append(issues, shapeIssue{rule: "SHAPE-2", msg: sv.violation})
+		case sv.undecided != "":
+			issues = append(issues, shapeIssue{rule: "SHAPE-2", undecided: true, msg: sv.undecided})
+		default:
+			spawnFacts = append(spawnFacts, sv.facts...)
+		}
+	}
+	// an operation whose only element loop runs in the workers: the decided partition + worker body is the map
+	if ms == nil {
+		for _, sv := range spawns {
+			if sv.fn == fn && sv.violation == "" && sv.undecided == "" && sv.worker != nil && sv.worker.prob == "" {
+				var kept []shapeIssue
+				for _, is := range issues {
+					if is.msg != "no loop stores into the result array" {
+						kept = append(kept, is)
+					}
+				}
+				issues = kept
+				we := sv.worker
+				ms = &mapSummary{src: we.src, idx: we.idx, val: we.val, elem: we.elem, lenProved: true, dst: we.src}
+				break
+			}
+		}
+	}
+	if len(spawns) == 0 {
+		for _, p := range res.Paths {
+			for _, n := range p.Notes {
+				if strings.Contains(n, "go statement") {
+					issues = append(issues, shapeIssue{rule: "SHAPE-2", undecided: true, msg: "a goroutine is spawned on the way (" + n + "): what it writes is not followed"})
+				}
+			}
+		}
+	}
 	if ms != nil {
 		// SHAPE-2: same length, the element read is src[idx]
 		if ms.src == nil {
@@ -875,7 +914,51 @@ func (k *checker) shapeOne(cs shapeCase, fn *ssa.Function) {
 		k.undecided("SYM-ALG", name, pos, prob)
 		return
 	}
-	k.decide(cs.law, name, pos, ms.val, want, true, "element read: "+ms.src.id+"["+rfKey(ms.idx.v, e.ST)+"]")
+	k.decide(cs.law, name, pos, ms.val, want, true, append([]string{"element read: " + ms.src.id + "[" + rfKey(ms.idx.v, e.ST) + "]"}, spawnFacts...)...)
+	// the element function of spawned workers (when the partition was decided)
+	for _, sv := range spawns {
+		if sv.worker == nil || sv.violation != "" || sv.undecided != "" {
+			continue
+		}
+		if sv.fn != fn {
+			continue // decided at the function that spawns (it is in the table itself or reported there)
+		}
+		we := sv.worker
+		if we.prob != "" {
+			k.undecided("SYM-ALG", name, pos, "spawned worker: "+we.prob)
+			continue
+		}
+		// parameters as the worker sees them (captured)
+		var wparams []Val
+		okp := true
+		for i, p := range fn.Params {
+			if !cs.mesh && i == len(fn.Params)-1 {
+				continue
+			}
+			if cs.mesh && i == 0 {
+				continue
+			}
+			b, has := we.binds[p.Name()]
+			if !has {
+				okp = false
+				break
+			}
+			if pv, isP := b.(PtrV); isP {
+				b = pv.cell.v
+			}
+			wparams = append(wparams, b)
+		}
+		if !okp {
+			k.undecided("SYM-ALG", name, pos, "spawned worker: the operation's parameters are not captured by the worker")
+			continue
+		}
+		wwant, prob := cs.spec(wparams, we.elem)
+		if prob != "" {
+			k.undecided("SYM-ALG", name, pos, "spawned worker: "+prob)
+			continue
+		}
+		k.decide(cs.law+" (spawned workers)", name, pos, we.val, wwant, false, "worker element read: "+we.src.id+"["+rfKey(we.idx.v, e.ST)+"]")
+	}
 }
 
 // originIssue: the destination must be a fresh make; writing into caller-visible storage is a
